@@ -147,3 +147,63 @@ func (g *Gen) aim(m *Model) (Step, bool) {
 	}
 	return Step{}, false
 }
+
+// aimOldestChange: a writer after which `claim` (in the given scope) must hand
+// out a different task than before - typically an OLDER task becoming ready
+// (a dependency finished or unlinked, a finished task reopened, a task moved
+// into the epic). A claim that chose its candidate before this writer
+// committed and acts on it afterwards hands out the wrong task.
+func (g *Gen) aimOldestChange(m *Model, epic string) (Cmd, bool) {
+	scope := m.Resolve(epic)
+	if epic == "" {
+		scope = ""
+	}
+	cur := m.OldestReady(scope)
+	var cands []Cmd
+	tasks := orderedLive(m, isTask)
+	try := func(c Cmd) {
+		p := m.Predict(c)
+		if p.Class != MustOK || len(p.Alts) == 0 {
+			return
+		}
+		next := p.Alts[0].OldestReady(scope)
+		if len(next) == 0 {
+			return
+		}
+		same := len(next) == len(cur)
+		for id := range next {
+			if !cur[id] {
+				same = false
+			}
+		}
+		if !same {
+			cands = append(cands, c)
+		}
+	}
+	for _, t := range tasks {
+		it := m.Items[t]
+		ref := g.refOf(m, t)
+		switch {
+		case finished(it.State):
+			try(Cmd{Op: "set", Mode: "json", ID: ref, State: sp("todo")})
+		case it.State == "doing" || it.State == "error":
+			try(Cmd{Op: "set", Mode: "json", ID: ref, State: sp("done")})
+			try(Cmd{Op: "set", Mode: "json", ID: ref, State: sp("todo"), Claim: sp("")})
+		default:
+			try(Cmd{Op: "set", Mode: "json", ID: ref, State: sp(g.oneOf("done", "canceled"))})
+		}
+		for _, d := range m.DepList(t) {
+			if m.Items[d] != nil {
+				try(Cmd{Op: "sequence_rm", IDs: []string{g.refOf(m, d), ref}})
+			}
+		}
+		if scope != "" && it.Epic != scope {
+			e := epic
+			try(Cmd{Op: "set", Mode: "json", ID: ref, Epic: &e})
+		}
+	}
+	if len(cands) == 0 {
+		return Cmd{}, false
+	}
+	return cands[g.R.Intn(len(cands))], true
+}
